@@ -292,6 +292,18 @@ class Episode(object):
             w.daemon_signal(op['sig'])
         self.place(op.get('place'), fire, 'op')
 
+    def op_clockjump(self, i, op):
+        """the wall clock is stepped (time.time() jumps, timers and sleeps
+        are unaffected - they run on the monotonic clock)"""
+        sim = self.world.sim
+
+        def fire():
+            sim.wall_offset += float(op['delta'])
+            sim.rec('clockjump', op['delta'])
+            self.fired['clock_jump'] += 1
+            self.note('clockjump')
+        self.place(op.get('place'), fire, 'op')
+
     def op_wait(self, i, op):
         w = self.world
         kind = op.get('kind', 'time')
